@@ -2,11 +2,11 @@ SPECIFICATION SpecP
 VIEW view
 CONSTANTS
   OffsMod = 65536
-  Kind = "pais"
-  Atoms <- AtomsListE
-  Prefix <- PfxNone
-  MaxLen = 7
-  Cfgs <- CfgsPAIs
+  Kind = "nameaddr"
+  Atoms <- AtomsParams
+  Prefix <- PfxAS
+  MaxLen = 6
+  Cfgs <- CfgsNA18
   Junk = 34
   EmitOn = TRUE
 INVARIANTS ResumeEqFresh Stable OffsSane Emit
